@@ -5,6 +5,8 @@ from __future__ import annotations
 import random
 
 from .. import gen
+
+gen.WIDE_RATE = 0.01   # wide (~100 operation) instances are costly here: a small share
 from ..drive import Run, gen_history_case
 
 ID = "C07"
